@@ -60,6 +60,12 @@ def tasks(tier):
             d_as_k = d_as
         out.append({"family": "async-interleave", "cfg": cfg, "entry": "AsyncPolicy", "bound": d_as_k,
                     "max_out": 2 if tier == "quick" else 3, "kinds": kinds, "weight": 8})
+        if "call" not in kinds:
+            # retry-less policies classify with the built-in classifier (UNKNOWN for the stub's
+            # exception): let UNKNOWN trip the breaker so that these histories reach open / half-open
+            out.append({"family": "async-interleave", "cfg": dict(cfg, trip_on=["T", "U"]),
+                        "entry": "AsyncPolicy", "bound": d_as_k, "max_out": 2, "kinds": kinds,
+                        "weight": 8})
         if thr == 1 and R == 2:
             # the operation may also fail with an exception chained to a CircuitOpenError
             out.append({"family": "async-interleave", "cfg": dict(cfg, chained=True),
